@@ -64,6 +64,40 @@ def speciesAttrs (comp : Option String) (species : List (String × Option Rat)) 
   | none => []
   | some c => species.map fun kv => ⟨kv.1, c, speciesHosu, speciesInitAmount⟩
 
+/-! ### inside math a component is referred to by the id it is declared with (`_sbml_ids`, `_sbmlify_fn(fn, args, ids)`) -/
+
+/-- `ids.get(n, n)`: the declared id of a component of the model, any other name as it is -/
+def idOf (m : PyModel) (n : String) : String :=
+  let pre : Option String :=
+    if (m.params.map (·.1)).contains n then some prefixParam
+    else if (m.vars.map (·.1)).contains n then some prefixVar
+    else if (m.derived.map (·.1)).contains n then some prefixRule
+    else if (m.rxns.map (·.name)).contains n then some prefixRxn
+    else none
+  match pre with
+  | some p => (match escapeId n p with | .ok s => s | .error _ => n)
+  | none => n
+
+def PyFn.mapArgs (g : String → String) (f : PyFn) : PyFn := { f with args := f.args.map g }
+
+def PyInit.mapArgs (g : String → String) : PyInit → PyInit
+  | .val q => .val q
+  | .ia f => .ia (f.mapArgs g)
+
+def PyCoef.mapArgs (g : String → String) : PyCoef → PyCoef
+  | .num q => .num q
+  | .computed f => .computed (f.mapArgs g)
+
+/-- the model as the exporter sees its functions: every model argument replaced by the component's id -/
+def PyModel.escArgs (m : PyModel) : PyModel :=
+  if mathUsesIds then
+    let g := idOf m
+    { params := m.params.map fun kv => (kv.1, kv.2.mapArgs g)
+      vars := m.vars.map fun kv => (kv.1, kv.2.mapArgs g)
+      derived := m.derived.map fun kv => (kv.1, kv.2.mapArgs g)
+      rxns := m.rxns.map fun r => { r with fn := r.fn.mapArgs g, stoich := r.stoich.map fun kv => (kv.1, kv.2.mapArgs g) } }
+  else m
+
 /-- `exportModel` with any initial set of names the species references have to avoid -/
 def exportModelFrom (taken0 : List String) (m : PyModel) : Except XErr SDoc := do
   let d ← foldE exportParam SDoc.empty m.params
@@ -90,7 +124,7 @@ def exportModelC (m : PyModel) (cs : List (String × Rat)) : Except XErr SDocC :
 /-- `write(model, file, compartments=…)` up to the serialisation -/
 def writeModel (m : PyModel) (cs : Option (List (String × Rat))) : Except XErr SDocC := do
   let cs ← chooseCompartments m.names cs
-  exportModelC m cs
+  exportModelC m.escArgs cs
 
 /-! ### SBML reading of a species in a compartment of constant size (L3v2 §4.6.5, §4.11.7) -/
 
